@@ -263,7 +263,7 @@ def info_points(scope: Scope):
     root = scope.root
     for n, anc in scope.members:
         path = anc + (n,)
-        if n is not root and n.action is not None:
+        if anc and n.action is not None:
             yield n, anc, "nested node value"
             continue
         if n.kind == "Suppress":
